@@ -11,6 +11,7 @@
 // come from the TLA+ specification (they are part of each case); the only comparison made here is structural
 // equality between the projection and the expectation.
 
+mod fam_buffers;
 mod fam_options;
 mod supervisor;
 mod util;
@@ -36,6 +37,7 @@ pub trait Family {
 pub fn make_family(name: &str) -> Option<Box<dyn Family>> {
     match name {
         "options" => Some(Box::new(fam_options::Options::default())),
+        "buffers" => Some(Box::new(fam_buffers::Buffers::default())),
         _ => None,
     }
 }
@@ -69,6 +71,10 @@ fn record_main(family: &str, rest: &[String]) -> i32 {
     match family {
         "options" => {
             fam_options::record(arg_u64(rest, "n", 1000));
+            0
+        }
+        "buffers" => {
+            fam_buffers::record(arg_u64(rest, "histories", 20), arg_u64(rest, "maxlen", 200));
             0
         }
         _ => {
